@@ -894,7 +894,38 @@ func evalActionDelete(node *ActionExpression, env *Environment) Object {
 		return result
 	}
 
-	return UNDEFINED
+	// DELETE on a document path: delete from the nested set
+	indexField, ok := node.Left.(*IndexExpression)
+	if ok {
+		obj := evalIndex(indexField, env)
+		if isError(obj) {
+			return obj
+		}
+
+		if isUndefined(obj) {
+			// deleting from a missing attribute is a no-op
+			return UNDEFINED
+		}
+
+		delObj, ok := obj.(DetachableObject)
+		if !ok {
+			return newError("an operand in the update expression has an incorrect data type")
+		}
+
+		result := delObj.Delete(val)
+		if isError(result) {
+			return result
+		}
+
+		// a set cannot be empty: deleting its last element removes the attribute
+		if isEmptySet(obj) {
+			return evalActionRemove(node, env)
+		}
+
+		return result
+	}
+
+	return newError("invalid DELETE target: %s", node.String())
 }
 
 func isEmptySet(obj Object) bool {
